@@ -28,7 +28,9 @@ RULE = ("history = one cell space (OrthogonalMooreGrid / OrthogonalVonNeumannGri
         "select_random_empty_cell under both strategies and placement into the returned cell, CellCollection views / select_random_cell / "
         "select_random_agent / select(filter, at_most) on all_cells and empties (at_most: inf, ints incl. negative, True, 10**20, floats <= 1.0 "
         "dyadic and 0.3 / 0.7, floats > 1.0, numpy.float64), Cell.connect / disconnect / connection queries followed by moves along the edited "
-        "keys, 'probe' points where the driver issues every kind of call that must be rejected in the state reached (C18 fault enumeration), "
+        "keys, on grids read-only calls of the neighbouring property-layer API that shares the 'empty' layer (select_cells with only_empty alone and "
+        "with conditions / extreme_values / masks in list and mask form, get_neighborhood_mask, aggregate, layer select_cells, reading grid.empty.data: "
+        "no-ops in the model, full view before == after in the oracle), 'probe' points where the driver issues every kind of call that must be rejected in the state reached (C18 fault enumeration), "
         "and - in 12 % of the histories, in their second half - direct cell.add_agent / remove_agent calls (model and correspondence only; the "
         "oracle stops judging a history at its first direct call). The whole state view is observed after every operation; at the end the "
         "constructor arguments (graph, points, dimensions) must be unchanged. "
@@ -269,6 +271,9 @@ def _gen_ops(rng, sp, kinds, n_ops):
                 ops.append(["new", k])
                 continue
             if q < 0.28:
+                if sp["type"] in ("moore", "vonneumann", "hex") and rng.random() < 0.5:
+                    ops.append(["layer_query", rng.randrange(12)])     # read-only property-layer calls touching the 'empty' layer
+                    continue
                 ops.append([rng.choice(["coll_rand_cell", "coll_rand_agent", "coll_view"]), rng.choice(["all", "empties"])])
                 continue
             if q < 0.34:
@@ -368,6 +373,10 @@ def _corner_cases():
     out.append({"space": {"type": "moore", "dims": [2, 2], "torus": False, "capacity": 1}, "agents": ["cell", "cell", "fixed"], "seed": 12,
                 "ops": [["set", 1, 0], ["set", 2, 1], ["cell_add", 1, 1], ["cell_add", 2, 1], ["cell_add", 2, 1], ["cell_remove", 0, 1], ["set", 1, 3], ["remove", 1],
                         ["cell_remove", 3, 2], ["coll_view", "all"], ["rand_empty", False], ["set", 3, 2], ["remove_all"]]})
+    # read-only property-layer calls between mutators on a grid (they share the 'empty' layer with the C06 views)
+    out.append({"space": {"type": "moore", "dims": [3, 3], "torus": False, "capacity": 2}, "agents": ["cell", "cell", "grid2d", "fixed"], "seed": 14,
+                "ops": [["set", 1, 0], ["set", 2, 4]] + [x for v in range(12) for x in (["layer_query", v], ["rand_empty", v % 2 == 0])]
+                       + [["set", 3, 8], ["set", 4, 8], ["move2d", 3, "north", 1]] + [["layer_query", v] for v in (1, 5, 6, 2, 11)] + [["remove", 1], ["layer_query", 1]]})
     # round 4: select(filter, at_most) on both collections; connect / disconnect followed by moves along the edited keys
     out.append({"space": {"type": "vonneumann", "dims": [2, 3], "torus": False, "capacity": 2}, "agents": ["cell", "grid2d", "cell"], "seed": 13,
                 "ops": [["set", 1, 0], ["set", 2, 0], ["set", 3, 4], ["coll_select", "all", ["nonempty"], None], ["coll_select", "all", ["any"], 2],
@@ -878,6 +887,77 @@ def run_impl(case):
             poisoned[0] = True
             prev = cur
             return
+        if kind == "layer_query":
+            # READ-ONLY calls of the neighbouring property-layer API on grids: they touch the same 'empty' layer and must
+            # leave every C06 view unchanged (interaction of two public features)
+            if not is_grid or not isinstance(op[1], int):
+                obs.append([-2] + prev)
+                ops_out.append(["noop"])
+                return
+            import warnings as _w
+
+            import numpy as np
+
+            v = op[1] % 12
+            returned = None
+            with _w.catch_warnings():
+                _w.simplefilter("ignore")
+                try:
+                    if "sugar" not in space._mesa_property_layers:
+                        lay = space.create_property_layer("sugar", default_value=0, dtype=int)
+                        for j, c in enumerate(cells):
+                            lay.data[c.coordinate] = (j * 7 + seed) % 5
+                    dims = tuple(space.dimensions)
+                    m1 = np.ones(dims, dtype=bool)
+                    m1[cells[0].coordinate] = False
+                    m2 = np.zeros(dims, dtype=bool)
+                    for j, c in enumerate(cells):
+                        m2[c.coordinate] = (j % 3 != 1)
+                    if v == 0:
+                        returned = space.select_cells(only_empty=True)
+                    elif v == 1:
+                        returned = space.select_cells(extreme_values={"sugar": "highest"}, only_empty=True)
+                    elif v == 2:
+                        space.select_cells(extreme_values={"sugar": "lowest"}, only_empty=True, return_list=False)
+                    elif v == 3:
+                        returned = space.select_cells(conditions={"sugar": lambda d: d >= 2}, only_empty=True)
+                    elif v == 4:
+                        returned = space.select_cells(masks=m1, only_empty=True)
+                    elif v == 5:
+                        returned = space.select_cells(conditions={"sugar": lambda d: d <= 3}, extreme_values={"sugar": "highest"},
+                                                      masks=[m1, m2], only_empty=True)
+                    elif v == 6:
+                        space.select_cells(extreme_values={"sugar": "highest", "empty": "highest"}, masks=m2, only_empty=True, return_list=False)
+                    elif v == 7:
+                        space.get_neighborhood_mask(cells[(i + seed) % ncells].coordinate, include_center=bool(i % 2), radius=1 + i % 2)
+                    elif v == 8:
+                        space._mesa_property_layers["empty"].aggregate(np.sum)
+                        space._mesa_property_layers["sugar"].aggregate(np.max)
+                    elif v == 9:
+                        space._mesa_property_layers["empty"].select_cells(lambda d: d)
+                        space._mesa_property_layers["empty"].select_cells(lambda d: ~d, return_list=False)
+                    elif v == 10:
+                        _ = space.empty.data.sum() + int(space.empty.data[cells[0].coordinate])
+                        space.select_cells(only_empty=False, extreme_values={"sugar": "lowest"})
+                    else:
+                        space.select_cells(conditions={"empty": lambda d: d}, extreme_values={"sugar": "lowest"}, only_empty=True)
+                except Exception:  # noqa: BLE001   a query may legitimately fail (e.g. an extreme value over no cell); it still must change nothing
+                    returned = None
+            cur = view()
+            obs.append([-2] + cur)
+            ops_out.append(["noop"])
+            if cur != prev:
+                fail("C06/layer-query/changed-emptiness-views", i,
+                     f"the read-only property-layer call #{v} (select_cells / get_neighborhood_mask / aggregate / reading the 'empty' layer) "
+                     f"changed the C06 views: before {prev} after {cur}")
+                poisoned[0] = True
+            elif returned is not None and not poisoned[0]:
+                coord = {tuple(int(q) for q in c.coordinate): j for j, c in enumerate(cells)}
+                bad = [tuple(int(q) for q in r) for r in returned if occupants(coord.get(tuple(int(q) for q in r), -1))]
+                if bad:
+                    fail("C06/layer-query/only-empty-returned-occupied", i, f"select_cells(only_empty=True) variant #{v} returned occupied cells {bad}")
+            prev = cur
+            return
         if kind in ("connect", "disconnect", "conn_query"):
             # Cell.connect / Cell.disconnect edit the live connections that move_relative / move read
             keys = [list(k) for k, _ in static["conn"]]
@@ -1007,7 +1087,7 @@ def run_impl(case):
         kind = op[0]
         op_m = list(op)
         if kind in ("new", "cell_add", "cell_remove", "coll_rand_cell", "coll_rand_agent", "coll_view", "coll_select", "connect",
-                    "disconnect", "conn_query"):
+                    "disconnect", "conn_query", "layer_query"):
             extra_op(i, op)
             continue
         a = op[1] if kind not in ("rand_empty", "remove_all") else None
@@ -1296,7 +1376,7 @@ def coq_case(case):
             ops.append(f"Disconnect {L.z(op[1])} {L.z(op[2])} {L.lst([L.zlist(q) for q in op[3]])}")
         elif k == "conn_query":
             ops.append(f"ConnQuery {L.z(op[1])} {L.lst([L.zlist(q) for q in op[2]])}")
-        elif k in ("coll_rand_cell", "coll_rand_agent", "coll_view", "coll_select"):
+        elif k in ("coll_rand_cell", "coll_rand_agent", "coll_view", "coll_select", "layer_query"):
             ops.append("Api (Remove 0)")
         else:
             ops.append(f"Api ({_api(op)})")
